@@ -121,9 +121,15 @@ fn one<T: Uni + Encode + Decode + DecodeWithMemTracking>(cx: &mut Cx, name: &str
 					}
 				}
 			}
+			let mut left_after_err = 0usize;
 			let r1 = catch_unwind(AssertUnwindSafe(|| {
 				let mut s = &inp[..];
-				T::decode(&mut s).ok().map(|v| (v, inp.len() - s.len()))
+				let r = T::decode(&mut s).ok().map(|v| (v, inp.len() - s.len()));
+				if r.is_none() {
+					// what a failed decode leaves of the slice is observable too
+					left_after_err = s.len();
+				}
+				r
 			}));
 			let all = catch_unwind(AssertUnwindSafe(|| {
 				let mut s = &inp[..];
@@ -131,7 +137,7 @@ fn one<T: Uni + Encode + Decode + DecodeWithMemTracking>(cx: &mut Cx, name: &str
 			}));
 			let (tag, coq) = match &r1 {
 				Ok(Some((v, c))) => (format!("ok\t{}\t{}", c, hex(&v.encode())), format!("(DOk {} {})", v.val(), c)),
-				Ok(None) => ("err".to_string(), "DErr".to_string()),
+				Ok(None) => (format!("err\tleft={left_after_err}"), "DErr".to_string()),
 				Err(_) => ("PANIC".to_string(), "DPanic".to_string()),
 			};
 			writeln!(cx.out, "{name}\tdec\t{}\t{}\tall={:?}", hex(&inp), tag, all.ok()).unwrap();
